@@ -3,6 +3,11 @@ import json, os, subprocess, time, re
 from . import common, kani, gen_table
 
 
+import threading
+_TABLE_LOCK = threading.Lock()
+_NATIVE_LOCK = threading.Lock()
+
+
 def _values_text(values):
     return "\n".join("".join("%02x" % b for b in v) for v in values) + "\n"
 
@@ -49,12 +54,14 @@ def native_runs(harness, features, debug_assertions, values, want_miri=False):
     with open(vpath, "w") as f:
         f.write(_values_text(values))
     tdir = os.path.join(root, "target_replay")
-    gen_table.generate()
+    with _TABLE_LOCK:
+        gen_table.generate()
     runs = {}
-    runs["dev"] = _build_and_run(harness, features, debug_assertions, False, vpath, tdir)
-    runs["release"] = _build_and_run(harness, features, debug_assertions, True, vpath, tdir)
-    if want_miri and runs["dev"]["exit"] != 1 and runs["release"]["exit"] != 1:
-        runs["miri"] = _build_and_run(harness, features, debug_assertions, False, vpath, os.path.join(root, "target_miri"), miri=True)
+    with _NATIVE_LOCK:      # one native build at a time (shared target dir)
+        runs["dev"] = _build_and_run(harness, features, debug_assertions, False, vpath, tdir)
+        runs["release"] = _build_and_run(harness, features, debug_assertions, True, vpath, tdir)
+        if want_miri and runs["dev"]["exit"] != 1 and runs["release"]["exit"] != 1:
+            runs["miri"] = _build_and_run(harness, features, debug_assertions, False, vpath, os.path.join(root, "target_miri"), miri=True)
     return runs
 
 
@@ -73,7 +80,7 @@ def confirm(pid, result):
         conf["kind"] = "expected-panic-unreachable"
         conf["replay_path"] = _write_replay(pid, job, None, None, {}, result.reason)
         return conf
-    tdir = os.path.join(root, "target_playback")
+    tdir = os.path.join(root, "target_playback_%s" % common.sha(job.key))
     log = os.path.join(root, "logs", "playback_" + re.sub(r"[^A-Za-z0-9_.+-]", "_", job.key) + ".log")
     os.makedirs(os.path.dirname(log), exist_ok=True)
     pb = kani.run_job(job, tdir, log, playback=True)
